@@ -21,7 +21,7 @@ import (
 // answer the shutdown request.
 const grpcShutdownTimeout = 2 * time.Second
 
-func dialGRPCConn(tls *tls.Config, dialer func(string, time.Duration) (net.Conn, error), dialOpts ...grpc.DialOption) (*grpc.ClientConn, error) {
+func dialGRPCConn(ctx context.Context, tls *tls.Config, dialer func(string, time.Duration) (net.Conn, error), dialOpts ...grpc.DialOption) (*grpc.ClientConn, error) {
 	// Build dialing options.
 	opts := make([]grpc.DialOption, 0)
 
@@ -47,9 +47,11 @@ func dialGRPCConn(tls *tls.Config, dialer func(string, time.Duration) (net.Conn,
 	// Add our custom options if we have any
 	opts = append(opts, dialOpts...)
 
-	// Connect. Note the first parameter is unused because we use a custom
-	// dialer that has the state to see the address.
-	conn, err := grpc.Dial("unused", opts...)
+	// Connect. Note the target parameter is unused because we use a custom
+	// dialer that has the state to see the address. The context only matters
+	// for a blocking dial (grpc.WithBlock in the custom options): it must not
+	// keep trying once ctx is done.
+	conn, err := grpc.DialContext(ctx, "unused", opts...)
 	if err != nil {
 		return nil, err
 	}
@@ -60,7 +62,7 @@ func dialGRPCConn(tls *tls.Config, dialer func(string, time.Duration) (net.Conn,
 // newGRPCClient creates a new GRPCClient. The Client argument is expected
 // to be successfully started already with a lock held.
 func newGRPCClient(doneCtx context.Context, c *Client) (*GRPCClient, error) {
-	conn, err := dialGRPCConn(c.config.TLSConfig, c.dialer, c.config.GRPCDialOptions...)
+	conn, err := dialGRPCConn(doneCtx, c.config.TLSConfig, c.dialer, c.config.GRPCDialOptions...)
 	if err != nil {
 		return nil, err
 	}
